@@ -324,6 +324,12 @@ Theorem C08_atom_tree_template_iso : forall a0 F (aat : Z -> attrs) (br : Z -> b
                                  (if br k then Some (aupdate [] a0) else None)))
   /\ Permutation (t_edges Tm) (map (fun e => (pos W (fst e), pos W (snd e), ordv (eo (fst e) (snd e)))) (redges T)).
 Proof. exact atom_tree_template_iso. Qed.
+(** ring-free = the ring-edge transcript is []: under the writer's contract for that transcript EVERY bond of g is an
+    edge of the DFS tree, so the bonds read back (the tree edges, C08_atom_tree_template_iso) are all the bonds of g *)
+Theorem C08_atom_tree_all_bonds : forall g T start, graph_wf g = true -> min_node g = Ok start -> dfs_edges g start = Ok (redges T) ->
+  ring_contract g (dfs_tree g) [] = true ->
+  forall u v, NxGraph.has_edge g u v = true -> In (u, v) (redges T) \/ In (v, u) (redges T).
+Proof. exact ring_free_all_tree. Qed.
 (** the descriptor dict in closed form: one entry per atom that has descriptors, keyed by its position *)
 Theorem C08_atom_tree_descriptor_dict : forall Dl, ddl 0 Dl [] = dentries 0 Dl.
 Proof. exact (fun Dl => ddl_entries Dl 0%nat [] (fun kv (H : In kv []) => match H with end)). Qed.
@@ -437,6 +443,7 @@ Print Assumptions C08_coarse_fragments_roundtrip_any.
 Print Assumptions C08_atom_tree_roundtrip.
 Print Assumptions C08_atom_tree_transcript.
 Print Assumptions C08_atom_tree_template_iso.
+Print Assumptions C08_atom_tree_all_bonds.
 Print Assumptions C08_atom_tree_descriptor_dict.
 Print Assumptions C08_atom_tree_annotation_dict.
 Print Assumptions C08_atom_tree_transcript_gen.
